@@ -106,7 +106,9 @@ def run(ck):
                       ('R1.8', 'folding is attempted only on all-constant operands with the matching evaluator'),
                       ('R1.9', 'branches, joins and sinks of the lowering follow the reviewed protocol (shared with C06)'),
                       ('R1.10', 'a declared name is in scope for the declarators and statements that follow it'),
-                      ('R1.11', 'the default clause is placed where the source puts it')):
+                      ('R1.11', 'the default clause is placed where the source puts it'),
+                      ('R1.12', 'AST fields are read from the grammar field of the same name'),
+                      ('R1.13', 'the walker hands the parts of an AST node to the visitor in the reviewed positions')):
         ck.rule(rid, text)
 
     disp = display_tables(L)
@@ -517,3 +519,83 @@ def run(ck):
         if ws is not None:
             ib = next((c for c in H.calls_in(ws['body']) if c.get('m') == 'insert' and c['args'] and 'position' in pp(c['args'][0]) and 'body' in pp(c['args'][1])), None)
             ck.ob('R1.11', 'default-body-inserted-at-position', ib is not None, L.loc(ib) if ib else L.loc(ws['body']), 'body_statements.insert(d.position, &d.body)')
+
+    # ---- R1.12 AST construction: struct field <- grammar field of the same name -------------------------------------------------------
+    AF = _core2.load_table('ast_fields.json')['exceptions']
+    n_f = 0
+    seen_exc = set()
+    for fn in L.fn_list:
+        if not fn['path'].startswith('qmlast::'):
+            continue
+        bsf = H.binding_sites(fn)
+        for stn in walk(fn['body']):
+            if stn.get('k') != 'Struct':
+                continue
+            sname = (stn.get('def') or '').split('::')[-1]
+            for f in stn.get('fields', []):
+                srcs = [f['e']]
+                b = bsf.get((H.root_local(f['e']) or {}).get('hid'))
+                if b is not None and b['kind'] == 'let' and b['node'].get('init') is not None:
+                    srcs.append(b['node']['init'])
+                lits = []
+                for sx in srcs:
+                    for c in H.calls_in(sx):
+                        if (H.callee(c) or '').endswith('get_child_by_field_name') or c.get('m') in ('child_by_field_name', 'children_by_field_name'):
+                            lits += [H.lit_value(a) for a in c['args'] if isinstance(H.lit_value(a), str)]
+                if not lits:
+                    continue
+                n_f += 1
+                key = '%s.%s' % (sname, f['f'])
+                exc = AF.get(key)
+                if set(lits) == {f['f']}:
+                    ok = True
+                    why = 'reads grammar field %s' % sorted(set(lits))
+                elif exc is not None:
+                    seen_exc.add(key)
+                    ok = sorted(set(lits)) == sorted(exc['from'])
+                    why = 'reviewed exception (%s): reads %s' % (exc['why'], sorted(set(lits)))
+                else:
+                    ok = set(lits) == {f['f']}
+                    why = 'reads grammar field %s' % sorted(set(lits))
+                ordn = ''
+                ck.ob('R1.12', 'ast-field|%s|%s' % (short(fn['path']), key), ok, L.loc(f['e']), why if ok else
+                      'AST field %s is read from grammar field(s) %s: the node placed here is another part of the source construct' % (key, sorted(set(lits))), fn=fn['path'])
+    ck.floor('R1.12', n_f, 34, 'AST struct fields read from grammar fields')
+
+    # ---- R1.13 walker -> visitor argument positions ----------------------------------------------------------------------------------------
+    WA = _core2.load_table('walker_args.json')['calls']
+    n_w = 0
+    seen_calls = {}
+    for fn in L.fn_list:
+        if fn['path'] not in ('typedexpr::walk_expr', 'typedexpr::walk_stmt'):
+            continue
+        for c in H.calls_in(fn['body']):
+            if c.get('k') != 'MCall' or c.get('m') not in WA:
+                continue
+            # the AST node of the arm: the binding of the enclosing arm pattern (conventionally `x`)
+            arm = next((a for a in H.ancestors(fn, c) if a.get('k') == 'Arm' and H.pat_bindings(a['pat'])), None)
+            arm_hids = set()
+            for a in H.ancestors(fn, c):
+                if a.get('k') == 'Arm':
+                    arm_hids |= {b['hid'] for b in H.pat_bindings(a['pat'])}
+            row = []
+            for a in c['args']:
+                parts = a['es'] if a.get('k') == 'Tup' else [a]
+                fields = set()
+                for p0 in parts:
+                    for o in H.origins(fn, p0):
+                        for x in walk(o):
+                            if x.get('k') == 'Field' and (H.root_local(x['e']) or {}).get('hid') in arm_hids and H.strip_refs(x['e']).get('k') == 'Path':
+                                fields.add(x['f'])
+                row.append(sorted(fields))
+            exp = WA[c['m']]
+            # a visitor may be called from several arms (assignment to a fresh local has no AST `left`): all-empty rows are other uses
+            if not any(row):
+                continue
+            n_w += 1
+            i = seen_calls.get(c['m'], 0)
+            seen_calls[c['m']] = i + 1
+            ck.ob('R1.13', 'walker-args|%s%s' % (c['m'], '#%d' % (i + 1) if i else ''), row == exp, L.loc(c),
+                  'arguments derive from AST fields %s' % row if row == exp else 'arguments derive from AST fields %s, reviewed contract: %s' % (row, exp), fn=fn['path'])
+    ck.floor('R1.13', n_w, 11, 'visitor calls fed from AST fields')
+    ck.ob('R1.13', 'all-contract-visitors-called', set(seen_calls) == set(WA), '', 'visitor calls checked: %s' % sorted(seen_calls))
